@@ -632,7 +632,8 @@ class Oracle:
                         elif any(p.owner and not sim.by_pid[p.owner].alive
                                  and not p.ready_delivered
                                  for p in mj.parts.values()):
-                            why = 'dead-owner'
+                            why = 'ack-after-reap' if getattr(
+                                mj, 'late_ack', False) else 'dead-owner'
                         elif sim.closed and (
                                 sim.config.get('maxtasks') or
                                 not any(p.alive for p in sim.procs)):
@@ -641,7 +642,8 @@ class Oracle:
                                 'job %d (%s) never resolved: the pool was closed '
                                 'and exited workers were not replaced' % (
                                     mj.idx, mj.kind))
-                        grp = 'C04' if why == 'dead-owner' and self.on('c04') \
+                        grp = 'C04' if why in ('dead-owner', 'ack-after-reap') \
+                            and self.on('c04') \
                             else 'C01'
                         raise Violation('%s/unresolved/%s/%s' % (grp, mj.kind, why),
                                         'job %d never resolved (parts: %s)' % (
@@ -710,14 +712,11 @@ class Oracle:
 
 
 def proc_was_alive(sim, proc):
-    """was the process alive when the scan began (exits recorded earlier than
-    the scan's first signal do not count)"""
-    for pid, status, t, _ in sim.exits:
-        if pid == proc.pid:
-            # exit recorded before this scan started?
-            pos = [s for s in sim.signals[sim.scan_sigpos:] if s[0] == pid]
-            return bool(pos)
-    return True
+    """was the process alive when the scan began? (an exit recorded during an
+    earlier operation means it was already gone; one recorded during the scan
+    itself does not)"""
+    pos = sim.exit_logpos.get(proc.pid)
+    return pos is None or pos >= getattr(sim, 'scan_logpos', 0)
 
 
 def run_case(case, clauses, final_ops=(('quiesce',),), prop=None):
